@@ -1,5 +1,6 @@
 """C11 — list/string indexing, slicing and concatenation obey the sequence
 laws (the accepted index/bound domains)."""
+import re
 import mir
 import guards
 import ops
@@ -601,9 +602,89 @@ def rule_R11_6(ctx):
     return r
 
 
+CHAR_STEP_RE = re.compile(r"<std::str::(Chars|CharIndices)(<[^>]*>)? as std::iter::(Iterator|DoubleEndedIterator)>::(next|next_back)$")
+
+
+def _str_ctor(prog, path):
+    import anchors
+    g = prog.fns.get(path or "")
+    return g is not None and not g.from_expansion and "Str" in anchors.ctor_variants(prog, path)
+
+
+def _builds_str_value(prog, f):
+    for c in f.calls():
+        if not c.is_ptr and _str_ctor(prog, c.res):
+            return c.loc
+    for bb, i, pl, kd, ao, sp in f.aggregates("eval::value::Value"):
+        if kd["variant"] == "Str" and i >= 0:
+            return mir.span_loc(sp)
+    return None
+
+
+def rule_R11_7(ctx):
+    """The items of a Seed string are its bytes (`Str` is a byte vector:
+    `->len()`, indexing, ranges and `for` all count bytes).  A string value
+    built once per *character* of another string is a decomposition in the
+    other unit: its item count disagrees with `->len()` as soon as a
+    multi-byte character occurs."""
+    import anchors
+    prog = ctx.prog
+    r = RuleResult("R11.7", "a string is split into items by bytes: no string "
+                   "value is built per `char` of a text (in a closure over "
+                   "`char`s or a loop stepping `Chars`/`CharIndices`)",
+                   "`xs[a:b] = s`, `for` and spread of a string then yield "
+                   "fewer, wider items than `s->len()` positions: "
+                   "`xs[a+k] == ys[k]` fails for multi-byte text")
+    vm = anchors.value_module(prog)
+    root = vm.split("::")[0]
+    n = 0
+    per_char = 0
+    for f in prog.hand_fns():
+        if f.from_expansion or f.generated:
+            continue
+        if not (f.module.startswith(root) or f.module.startswith("builtins")):
+            continue
+        n += 1
+        where = None
+        how = None
+        ptys = [f.locals[k] for k in range(1, f.arg_count + 1) if k < len(f.locals)]
+        if f.is_closure and any(t == "char" or re.match(r"\((usize, char|char, usize)\)$", t) for t in ptys[1:]):
+            per_char += 1
+            where = _builds_str_value(prog, f)
+            how = "a closure called once per `char`"
+        if where is None:
+            loops = f.natural_loops()
+            for h, body in loops.items():
+                steps = [c for c in f.calls() if c.bb in body and not c.is_ptr and CHAR_STEP_RE.search(c.res_full or c.res or "")]
+                if not steps:
+                    continue
+                per_char += 1
+                for c in f.calls():
+                    if c.bb in body and not c.is_ptr and _str_ctor(prog, c.res):
+                        where = c.loc
+                        how = "a loop that steps a `char` iterator"
+                for bb, i, pl, kd, ao, sp in f.aggregates("eval::value::Value"):
+                    if kd["variant"] == "Str" and i >= 0 and bb in body:
+                        where = mir.span_loc(sp)
+                        how = "a loop that steps a `char` iterator"
+        if where:
+            r.fail("%s | string value built per char" % f.path,
+                   "%s builds a string value in %s: the pieces are "
+                   "characters, but the positions of a Seed string are bytes"
+                   % (f.path, how), where=where)
+    r.inst("value-layer functions and closures looked at: %d; per-char closures/loops: %d" % (n, per_char))
+    if not r.violations:
+        r.ok()
+    # positive control: the byte-wise constructor exists
+    ctors = [g.path for g in prog.hand_fns() if _str_ctor(prog, g.path)]
+    r.inst("string value constructors: %s" % ", ".join(sorted(ctors)))
+    r.require_floor("string value constructors in the value module", len(ctors), 1)
+    return r
+
+
 def run(ctx):
     return [rule_R11_1(ctx), rule_R11_2(ctx), with_views(rule_R11_3, ctx), with_views(rule_R11_4, ctx),
-            with_views(rule_R11_5, ctx), rule_R11_6(ctx)]
+            with_views(rule_R11_5, ctx), rule_R11_6(ctx), rule_R11_7(ctx)]
 
 
 META = {
